@@ -88,9 +88,23 @@ VSerialize(st, ev) ==
           IN IF bad = {} THEN Good(st)
              ELSE Bad("C10: serialized field value", ToJson([k \in bad |-> BytesToHex(e.v[k])]), st)
 
+(* a state dictionary is well formed if every field the class needs is present   *)
+(* and is a string of hex digits (side: the class letter); anything else must be  *)
+(* refused by from_serialized() (beyond the listed properties: robustness)        *)
+Needed(cls) == IF cls = "S" THEN BlobFieldsS ELSE BlobFieldsAB
+WellFormedBlob(cls, f) ==
+  /\ "side" \in DOMAIN f
+  /\ \A k \in Needed(cls) \cap DOMAIN f : k = "side" \/ IsHexString(f[k])
+(* the fields the class reads, as byte strings (fields it never reads are ignored) *)
+BlobBytesFor(cls, f) == [k \in Needed(cls) \cap DOMAIN f |-> IF k = "side" THEN StrToBytes(f[k]) ELSE HexToBytes(f[k])]
+VRestoreMalformed(st, ev) ==
+  IF ev.out.t = "inst" THEN Bad("from_serialized() returned an instance for malformed state", "any exception", st)
+  ELSE IF ~NoEntropy(ev) THEN Bad("C11: from_serialized() drew entropy", "", st)
+  ELSE Good(st)
 VRestore(st, ev) ==
   IF ev.inst \in DOMAIN st THEN Bad("harness: instance id reused", "", st)
-  ELSE LET bb == BlobBytes(ev.blob)
+  ELSE IF "malformed" \in DOMAIN ev \/ ~WellFormedBlob(ev.cls, ev.blob) THEN VRestoreMalformed(st, ev)
+  ELSE LET bb == BlobBytesFor(ev.cls, ev.blob)
            e == RestoreOutcome(ev.cls, ParamTable[ev.ps], bb)
            o == Obs(ev.out)
            \* a revived instance continues the lineage of the instance whose state it was given
@@ -122,7 +136,9 @@ VConsts(st, ev) ==
               ToJson([k \in bad |-> BytesToHex(exp[k])]), st)
 
 EventVerdict(st, ev) ==
-  CASE ev.op = "new"       -> VNew(st, ev)
+  CASE ev.op \in {"start", "finish", "serialize"} /\ ev.inst \notin DOMAIN st
+                           -> Bad("call on an instance that exists although the specification refused to create it", "", st)
+    [] ev.op = "new"       -> VNew(st, ev)
     [] ev.op = "start"     -> VStart(st, ev)
     [] ev.op = "finish"    -> VFinish(st, ev)
     [] ev.op = "serialize" -> VSerialize(st, ev)
